@@ -30,8 +30,9 @@ META = {
                   'non-replica id; one partition; shrink/expand name '
                   'replicas other than the leader named in the request (the only in-tree sender does). Requests are '
                   'atomic except that ReportLeader, ShrinkISR and ExpandISR are each split at the gate hook between their '
-                  'pair check and their effect (witness registration + election / Raft proposal), with up to 2-3 requests '
-                  'parked in between; other overlaps are not scheduled. The expiry timer is real (120 ms); the driver proves by the clock that no step other than '
+                  'pair check and their effect (witness registration + election / Raft proposal), and a report that completes the '
+                  'quorum additionally between the decision to elect and the CHANGE_LEADER proposal (gate metadata.elect.checked), with up to 2-3 requests '
+                  'parked in between; other overlaps are not scheduled; while an election is parked there is no expiry, controller loss or Raft fault. The expiry timer is real (120 ms); the driver proves by the clock that no step other than '
                   'Expire can have seen a spontaneous expiry, and an Expire step ends only in a situation established on the real '
                   'timer (entry gone / timer not pending / still pending after two periods), else the behaviour is re-executed. Bounds: quick 8 steps '
                   'exhaustive model (6 with overlapping reports) / 3 steps replayed transition cover + every sequence '
@@ -138,7 +139,7 @@ def stale_apply_line(lines, tid, upto):
     # k = the Open line of the behaviour
     for j in range(k + 1, upto + 1):
         ev, prev = lines[j], lines[j - 1]
-        if ev['a'] in ('ReportApply', 'ISRApply'):
+        if ev['a'] in ('ReportApply', 'ISRApply', 'ElectApply'):
             r = prev['st']['pend'][ev['args']['i'] - 1]
             stale = r['l'] != prev['st']['leader'] or r['e'] != prev['st']['lepoch'] or not prev['st']['exists']
             if stale and ev['obs']['err'] != 'stale':
@@ -186,6 +187,10 @@ def label_step(lab):
         return {'a': 'ReportCheck', 'w': args[0], 'ps': args[1]}
     if name == 'MCReportApply':
         return {'a': 'ReportApply', 'i': args[0], 'pref': args[1]}
+    if name == 'MCElectCheck':
+        return {'a': 'ElectCheck', 'w': args[0], 'ps': args[1]}
+    if name == 'MCElectApply':
+        return {'a': 'ElectApply', 'i': args[0], 'pref': args[1]}
     if name == 'MCISRCheck':
         return {'a': 'ISRCheck', 'k': args[0], 'r': args[1], 'ps': args[2]}
     if name == 'MCISRApply':
@@ -246,7 +251,7 @@ def run(rep, tier, seed, replay):
     if cx:
         directed.append((isr, cx))
         directed.append((isr, cx + [{'a': 'Report', 'w': 'r2', 'ps': 'cur', 'pref': 'none'}]))
-    for cfg in ('MC_Failover_race_taint_isr.cfg', 'MC_Failover_race_isr_leader.cfg'):
+    for cfg in ('MC_Failover_race_taint_isr.cfg', 'MC_Failover_race_isr_leader.cfg', 'MC_Failover_race_taint_elect.cfg'):
         r5 = core.tlc_check('MC_Failover.tla', cfg, timeout=600, workers=1)
         rep.cov['design_checks'].append({'config': cfg + ' (defective variant, expected to fail)',
                                          'violated': r5['violated'], 'distinct_states': r5['distinct'],
@@ -280,6 +285,18 @@ def run(rep, tier, seed, replay):
     for root, p in ppaths:
         isr = core.tlaval.state_var(gp['nodes'][root], 'isr')['__set__']
         pathb.append((isr, [label_step(gp['edges'][i][2]) for i in p]))
+    # 3c. every transition of a small instance in which ONE request is parked between two of its critical
+    #     sections (report: pair check | registration; election: decided | proposal; ISR request: pair check |
+    #     proposal) with any other step in between - only the behaviours that park something are kept
+    gk = graph.tlc_dump('MC_Failover.tla', 'MC_Failover_cover_park.cfg', timeout=1500)
+    kpaths, kcov, kedges = graph.cover(gk)
+    parkb = []
+    for root, p in kpaths:
+        steps = [label_step(gk['edges'][i][2]) for i in p]
+        if any(st['a'] in ('ReportCheck', 'ISRCheck', 'ElectCheck') for st in steps):
+            isr = core.tlaval.state_var(gk['nodes'][root], 'isr')['__set__']
+            parkb.append((isr, steps))
+    rep.cov['behaviours_parked_request_cover'] = len(parkb)
     rep.cov['step_sequences_replayed'] = len(pathb)
     rep.cov['cover_states'] = len(g['nodes'])
     rep.cov['cover_transitions'] = nedges
@@ -293,7 +310,7 @@ def run(rep, tier, seed, replay):
         if len(b) > 1:
             simb.append((core.tlaval.state_var(b[0]['body'], 'isr')['__set__'], [s['last'] for s in b[1:]]))
     behaviours = []
-    for isr, steps in directed + cover + pathb + simb + raceb:
+    for isr, steps in directed + cover + pathb + parkb + simb + raceb:
         behaviours.append(to_stimulus(isr, steps, len(behaviours) + 1))
     # 5. execute on the real controller, 6. TLC judges
     with core.scratch('c07') as d:
